@@ -42,8 +42,9 @@ fn table_strategy() -> BoxedStrategy<TableCase> {
         proptest::sample::select(OUTS.to_vec()),
         any::<bool>(),
         any::<bool>(),
+        proptest::bool::weighted(0.1),
     )
-        .prop_map(|(expected, status, code, stream, exps, stdout, stderr, align_code, align_out)| {
+        .prop_map(|(expected, status, code, stream, exps, stdout, stderr, align_code, align_out, echo)| {
             // bias: half of the cases have the right code, half have expectations equal to the output
             let code = if align_code { expected.unwrap_or(0) } else { code };
             let mut exps: Vec<String> = exps.into_iter().map(|s| s.to_string()).collect();
@@ -57,14 +58,24 @@ fn table_strategy() -> BoxedStrategy<TableCase> {
                     })
                     .collect();
             }
+            // echo family: the configured stream is the expectation source text itself
+            let (mut stdout, mut stderr) = (stdout.to_string(), stderr.to_string());
+            if echo && !align_out && !exps.is_empty() {
+                let text = format!("{}\n", exps.join("\n"));
+                if stream == 2 {
+                    stderr = text;
+                } else {
+                    stdout = text;
+                }
+            }
             TableCase {
                 expected,
                 status,
                 code,
                 stream,
                 exps,
-                stdout: stdout.to_string(),
-                stderr: stderr.to_string(),
+                stdout,
+                stderr,
             }
         })
         .boxed()
@@ -221,6 +232,9 @@ pub struct E2eTest {
 #[derive(Clone, Debug, Serialize, Deserialize)]
 pub struct E2eCase {
     pub tests: Vec<E2eTest>,
+    /// write the document in Cram format (single-script execution, combined stream)
+    #[serde(default)]
+    pub cram: bool,
 }
 
 const PAYLOAD: &[&str] = &["alpha", "beta", "gamma delta", "", "x y z", "ünï"];
@@ -255,7 +269,16 @@ fn e2e_strategy() -> BoxedStrategy<E2eCase> {
                 mut_line,
             }
         });
-    vec(t, 1..=4).prop_map(|tests| E2eCase { tests }).boxed()
+    (vec(t, 1..=4), proptest::bool::weighted(0.2))
+        .prop_map(|(mut tests, cram)| {
+            if cram {
+                for t in tests.iter_mut() {
+                    t.stream = 3; // Cram: always the combined stream, no inline configuration
+                }
+            }
+            E2eCase { tests, cram }
+        })
+        .boxed()
 }
 
 fn check_e2e(c: &E2eCase) -> V {
@@ -263,7 +286,7 @@ fn check_e2e(c: &E2eCase) -> V {
         Ok(d) => d,
         Err(e) => return inconclusive(&format!("scratch dir: {e}")),
     };
-    let mut doc = String::from("# C05 end to end\n\n");
+    let mut doc = if c.cram { String::new() } else { String::from("# C05 end to end\n\n") };
     // model
     let mut expected_kinds: Vec<&'static str> = vec![];
     let mut dead = false; // a previous command was killed by a signal: nothing after it runs
@@ -303,19 +326,34 @@ fn check_e2e(c: &E2eCase) -> V {
             }
             output_ok = false;
         }
-        doc.push_str(&format!("## test {i}\n\n```scrut{cfg}\n$ cat '{}'; cat '{}' >&2\n", fo.display(), fe.display()));
-        match t.ending {
-            0 => doc.push_str(&format!("> (exit {})\n", t.code)),
-            _ => doc.push_str(&format!("> kill -{} $$\n", t.signal)),
-        }
-        for e in &exps {
-            doc.push_str(e);
+        if c.cram {
+            doc.push_str(&format!("test {i}\n  $ cat '{}'; cat '{}' >&2\n", fo.display(), fe.display()));
+            match t.ending {
+                0 => doc.push_str(&format!("  > (exit {})\n", t.code)),
+                _ => doc.push_str(&format!("  > kill -{} $$\n", t.signal)),
+            }
+            for e in &exps {
+                doc.push_str(&format!("  {e}\n"));
+            }
+            if let Some(x) = t.expected {
+                doc.push_str(&format!("  [{x}]\n"));
+            }
             doc.push('\n');
+        } else {
+            doc.push_str(&format!("## test {i}\n\n```scrut{cfg}\n$ cat '{}'; cat '{}' >&2\n", fo.display(), fe.display()));
+            match t.ending {
+                0 => doc.push_str(&format!("> (exit {})\n", t.code)),
+                _ => doc.push_str(&format!("> kill -{} $$\n", t.signal)),
+            }
+            for e in &exps {
+                doc.push_str(e);
+                doc.push('\n');
+            }
+            if let Some(x) = t.expected {
+                doc.push_str(&format!("[{x}]\n"));
+            }
+            doc.push_str("```\n\n");
         }
-        if let Some(x) = t.expected {
-            doc.push_str(&format!("[{x}]\n"));
-        }
-        doc.push_str("```\n\n");
         let kind = if dead {
             "not_success"
         } else if t.ending == 1 {
@@ -330,7 +368,7 @@ fn check_e2e(c: &E2eCase) -> V {
         };
         expected_kinds.push(kind);
     }
-    let path = dir.path().join("doc.md");
+    let path = dir.path().join(if c.cram { "doc.t" } else { "doc.md" });
     std::fs::write(&path, &doc).ok();
     let run = match run_scrut(&dir, &["test", "-r", "json", "--no-color", path.to_str().unwrap()], 60) {
         Ok(r) => r,
@@ -342,6 +380,7 @@ fn check_e2e(c: &E2eCase) -> V {
             || c.tests.iter().any(|t| t.stream >= 2)
             || expected_kinds.contains(&"invalid_exit_code"))
         .label_if(any_signal, "signal_killed_command")
+        .label_if(c.cram, "cram")
         .label_if(expected_kinds.contains(&"invalid_exit_code"), "wrong_exit_code")
         .label_if(expected_kinds.contains(&"malformed_output"), "malformed_output")
         .label_if(expected_kinds.iter().all(|k| *k == "success"), "all_pass");
